@@ -42,9 +42,10 @@ package convert
 //@ pred GroupsDone(pbr *updogv1.Result, result *updog.Result) :=
 //@   (forall j idx(pbr.Groups) :: pbr.Groups[j] != nil && !(pbr.Groups[j] in old($alloc)) && allocated(pbr.Groups[j]) && pbr.Groups[j].Count == result.Groups[j].Count
 //@        && len(pbr.Groups[j].Fields) == len(result.Groups[j].Fields)
-//@        && !(arr(pbr.Groups[j].Fields) in old($alloc)) && allocated(arr(pbr.Groups[j].Fields)) && (forall k idx(pbr.Groups[j].Fields) :: pbr.Groups[j].Fields[k] != nil
+//@        && !(arr(pbr.Groups[j].Fields) in old($alloc)) && allocated(arr(pbr.Groups[j].Fields)))
+//@   && (forall j idx(pbr.Groups), k idx(pbr.Groups[j].Fields) :: pbr.Groups[j].Fields[k] != nil
 //@        && !(pbr.Groups[j].Fields[k] in old($alloc)) && allocated(pbr.Groups[j].Fields[k])
-//@        && pbr.Groups[j].Fields[k].Column == result.Groups[j].Fields[k].Column && pbr.Groups[j].Fields[k].Value == result.Groups[j].Fields[k].Value))
+//@        && pbr.Groups[j].Fields[k].Column == result.Groups[j].Fields[k].Column && pbr.Groups[j].Fields[k].Value == result.Groups[j].Fields[k].Value)
 
 //@ func [C13,C14] ToProtobufResult(result, qid) (pbr)
 //@   requires result != nil
